@@ -11,8 +11,10 @@ def simple_run(prop, snap, tier, seed, t0, replay, level, rule, assumptions, sha
     module = module or prop.lower()
     if replay is not None:
         case = replay.get("case", replay)
-        res = run_one(snap, module, dict({"replay": case, "seed": seed, "tier": tier}, **(replay_extra or {})),
-                      envs_fn(snap, [{"replay": case}])[0] if envs_fn else snap.env(), timeout)
+        env = envs_fn(snap, [{"replay": case}])[0] if envs_fn else snap.env()
+        if isinstance(case, dict) and "_hashseed" in case:
+            env = dict(env, PYTHONHASHSEED=str(case["_hashseed"]))
+        res = run_one(snap, module, dict({"replay": case, "seed": seed, "tier": tier}, **(replay_extra or {})), env, timeout)
         m = harness.merge([res])
         print("REPLAY %s: violations=%d known=%d" % (prop, m.unlisted_n, sum(m.known_n.values())))
         return harness.finish(prop, tier, seed, level, m, rule, t0, assumptions, replay_mode=True)
